@@ -28,8 +28,10 @@
 EXTENDS Naturals, Sequences, FiniteSets, TLC
 
 IsWs(c) == c \in {" ", "\t"}
-IsLetter(c) == c \in {"a", "b", "c", "d", "e", "f", "g", "i", "l", "m", "n", "o", "p", "r", "s", "t", "x", "y",
-                      "A", "C", "D", "G", "O", "P"}
+IsLetter(c) == c \in {"a", "b", "c", "d", "e", "f", "g", "h", "i", "j", "k", "l", "m", "n", "o", "p", "q", "r", "s", "t", "u",
+                      "v", "w", "x", "y", "z",
+                      "A", "B", "C", "D", "E", "F", "G", "H", "I", "J", "K", "L", "M", "N", "O", "P", "Q", "R", "S", "T", "U",
+                      "V", "W", "X", "Y", "Z"}
 
 RECURSIVE FirstNonWs(_, _)
 FirstNonWs(ln, i) == IF i > Len(ln) THEN 0 ELSE IF IsWs(ln[i]) THEN FirstNonWs(ln, i + 1) ELSE i
